@@ -63,6 +63,33 @@ def errClass : XErr → String
   | .syntax => "syntax" | .rest => "rest" | .reference => "reference" | .duplicateAttr => "invalid"
   | .unsupported => "invalid" | .shape => "shape" | .fuel => "fuel"
 
+
+/-- declared type of attribute `a` on element type `el` (first binding definition) -/
+def attrTypeOf (dt : Option Doctype) (el a : QN) : Option AttType :=
+  ((attDefsFor dt el).find? (·.name == a)).map (·.ty)
+
+/-- `attrs`: per element in document order, the attributes with normalized value and specified flag -/
+partial def attrsItem (req : Bool) (dt : Option Doctype) (t : EntTable) : Item → String
+  | .elem n attrs kids =>
+      let as := (elemAttrs req dt n attrs).map fun (a, sp) =>
+        let v := match normalizedValue t (attrTypeOf dt n a.name) a.vals with
+          | .ok v => e v
+          | .error x => "!" ++ errClass x
+        (e a.name.text, s!"A({e a.name.text},{if sp then 1 else 0},{v})")
+      s!"E({e n.text})[{String.join ((sortPairs as).map (·.2))}]" ++ String.join (kids.map (attrsItem req dt t))
+  | _ => ""
+
+def opAttrs (req : Bool) (s : Str) : String :=
+  match parseDoc s with
+  | .ok (d, []) =>
+      let dt := docDoctype d
+      let t := match dt with | some x => entTableOf x | none => []
+      (match d.kids.findSome? fun | .elem x => some x | _ => none with
+       | some root => "ok " ++ attrsItem req dt t root
+       | none => "err:noroot")
+  | .ok (_, _) => "err:rest"
+  | .error x => s!"err:{errClass x}"
+
 def opParse (s : Str) : String :=
   match parseDoc s with
   | .ok (d, rest) => s!"ok rest={e rest} {dumpDoc d}"
